@@ -141,7 +141,26 @@ def run(ctx):
                 for mode_seed in (rng.randrange(1 << 30) * 4 + 3, rng.randrange(1 << 30) * 4 + rng.randrange(3)):
                     lines.append('stream %s %d %d %d %s' % (arch, enc, st, mode_seed, d.hex() or '-'))
                     meta.append((arch, enc, st, mode_seed, d, len(olines) - 1))
-    out = batch(drv, lines); oout = batch(orc, olines, timeout=1800)
+    # reused coders (seed bit 2): short streams with branch opcodes in the first bytes, after an arbitrary earlier stream
+    for ai, arch in enumerate(ARCHS):
+        for k in range(NB * 4 if arch == 'x86' else NB // 4):
+            d = bytes(rng.choice([0xE8, 0xE9, 0x00, 0xFF, 0x10, 0x20, 0x30, 0x90, 0x0F, 0x80, 0xEB, 0x94, 0x4B, 0x7F, rng.getrandbits(8)]) for _ in range(rng.randrange(1, 24)))
+            if rng.random() < 0.5: d = bytes([rng.choice([0xE8, 0xE9])]) + d
+            st = rng.choice([0, 0, ALIGN[arch] * rng.randrange(1 << 10)])
+            for enc in (1, 0):
+                olines.append('bcjwhole %d %d %d %s' % (ai, enc, st, d.hex() or '-'))
+                for _r in range(3):
+                    mode_seed = rng.randrange(1 << 28) * 8 + 4 + rng.choice([0, 0, 3])
+                    lines.append('stream %s %d %d %d %s' % (arch, enc, st, mode_seed, d.hex() or '-'))
+                    meta.append((arch, enc, st, mode_seed, d, len(olines) - 1))
+    try:
+        out = batch(drv, lines)
+    except BuildError as e:
+        if getattr(e, 'culprit', None):
+            ctx.violation('BCJ streaming coder crashed or stopped making progress (rc %s)' % e.rc, {'kind': 'crash', 'line': e.culprit[:4000], 'detail': str(e)[-1500:]}, found_input=True)
+            ctx.cov['evaluations'] = n_eval; return
+        raise
+    oout = batch(orc, olines, timeout=1800)
     enc_out = {}
     for m, a in zip(meta, out):
         n_eval += 1
